@@ -17,15 +17,20 @@ import symlib as L
 import vlib
 
 THEOREMS = ["C06_coherent", "C06_total", "C06_nonvacuous", "C06_nonvacuous_answers", "C06_double_visit_incoherent",
-            "C06_coherent_core_partial", "C06_core_nonvacuous"]
+            "C06_coherent_core_partial", "C06_core_nonvacuous", "C06_pipeline_core_partial", "C06_pipeline_nonvacuous"]
+# the pipeline statement goes through the parser / AST models regenerated from the current sources
+TRANSLATORS = ["t_tokens", "t_lextables", "t_unicode", "t_grammar", "t_grammarcert", "t_foldkinds", "t_ast"]
 TRUSTED = [
     "Coq 8.16.1 kernel; vm_compute only in the closed Examples (non-vacuity, D2 witness)",
     "C06_coherent is about the op-level model: what the indexer (index.rs) guarantees about its calls is the "
     "checked hypothesis ops_wf (evaluated by the extracted model on the real op log of every generated workspace)",
-    "C06_coherent_core_partial replaces ops_wf by a proof over group scope's indexer model (Indexer.v) for SINGLE-FILE Core workspaces; its "
-    "hypotheses are stmt_ok (identifiers of the Core AST are identifier tokens carrying their text; proved for the model pipeline in "
-    "proofs/BridgeSymbol.v) and the decidable log_fresh (no source range visited twice), evaluated by ixbridge_run on every compared "
-    "workspace; that Indexer.v + IndexerOps.abs equals what index.rs does is the CHECKED state equality 'bridge_to_indexer_model'",
+    "C06_coherent_core_partial replaces ops_wf by a proof over group scope's indexer model (Indexer.v) for ALL Core workspaces (any number of "
+    "files); its hypotheses are stmt_ok (identifiers of the Core AST are identifier tokens of their file carrying their text) and the decidable "
+    "log_fresh (no source range visited twice), evaluated by ixbridge_run on every compared workspace; C06_pipeline_core_partial discharges "
+    "stmt_ok and toks_sorted through builder bridge's model pipeline (Pipeline.analyze), leaving only log_fresh; that Indexer.v + "
+    "IndexerOps.abs equals what index.rs does is the CHECKED state equality 'bridge_to_indexer_model'; harness coreast = AstToCore.core_of_tree "
+    "and parser model = syntax crate are the checked ties of builder bridge / the parser group; translators t_tokens, t_lextables, t_unicode, "
+    "t_grammar, t_grammarcert, t_ast (pipeline statement)",
     "hook H3 logs every mutating SymbolMap call with its arguments (crates/ide/src/symbol_map.rs, symbol_map/*.rs, index/context.rs::error, cfg tablegen_lsp_verif)",
     "modelled, not verified: iset::IntervalMap (insert replaces on equal interval, point query = entries with lo <= p < hi in (lo,hi) order), "
     "id_arena (alloc appends), HashMap/IndexMap as association lists",
@@ -72,7 +77,7 @@ def still_bad(bindir, prop_pred):
 
 def run(ctx):
     bindir = vlib.build_harness(True, bins=["symdump"])
-    fails = vlib.proof_step(ctx, "TG.Props.C06", THEOREMS, ["props/C06.vo"], TRUSTED, translators=[])
+    fails = vlib.proof_step(ctx, "TG.Props.C06", THEOREMS, ["props/C06.vo"], TRUSTED, translators=TRANSLATORS)
     exe = vlib.build_model("symmap")
     wss, kinds = gen_inputs(ctx)
     res = L.evaluate(bindir, exe, wss)
